@@ -14,7 +14,10 @@ import ExoVerif.Model.GenesisAssets
     x/operator/types/genesis.go   Validate = ValidateOperators, ValidateOperatorConsKeyRecords, ValidateOptedStates,
                                   ValidateAVSUSDValues, ValidateOperatorUSDValues (, ValidateSlashStates,
                                   ValidatePrevConsKeys, ValidateOperatorKeyRemovals), in this order, each fed with the maps
-                                  the earlier ones return.
+                                  the earlier ones return. Since the F-18o / F-18p / F-18r repairs: a missing AVS USD value
+                                  reads as zero, the operator's ACTIVE value is compared with the AVS's, the zero value
+                                  of an AVS without opted state is accepted (`OpValCfg`; `validatePreFix` keeps the
+                                  earlier validator for the regression theorems).
     x/operator/keeper/opt.go      OptIn → InitOperatorUSDValue: the (AVS, operator) entry is written with three zeros; the
     x/operator/keeper/abci.go     AVS's own USD value is written by UpdateVotingPower at the AVS's epoch end only, as the sum
                                   of the totals of the operators whose self value reaches the AVS's minimum self delegation
@@ -129,38 +132,66 @@ def validateOptStates (ops : List String) (ss : List OptState) : Bool :=
 /-- the set ValidateOptedStates returns: the AVS of every opted state (opted out or not) -/
 def optedAVSs (ss : List OptState) : List String := ss.map (·.avs)
 
-/-- ValidateAVSUSDValues: no duplicate AVS, the AVS occurs in an opted state, the amount is not negative -/
-def validateAvsUsd (avss : List String) (as : List (String × Int)) : Bool :=
-  decide (as.map (·.1)).Nodup && as.all (fun a => avss.contains a.1 && decide (0 ≤ a.2))
+/-- which of the three repaired rejections of ValidateAVSUSDValues / ValidateOperatorUSDValues are in force -/
+structure OpValCfg where
+  /-- F-18o repair: a (AVS, operator) entry whose AVS has no USD value yet is compared with zero (before: rejected) -/
+  missingAvsAsZero : Bool
+  /-- F-18p repair: the operator's ACTIVE value is compared with the AVS's value (before: its total) -/
+  compareActive : Bool
+  /-- F-18r repair: a ZERO USD value of an AVS that occurs in no opted state is accepted (before: rejected) -/
+  zeroAvsUnopted : Bool
+deriving DecidableEq, Repr, Inhabited
+
+/-- the code as it is (after the F-18o / F-18p / F-18r repairs) -/
+def codeOpValCfg : OpValCfg := ⟨true, true, true⟩
+/-- the code before the three repairs. Kept for the regression theorems. -/
+def preFixOpValCfg : OpValCfg := ⟨false, false, false⟩
+
+/-- ValidateAVSUSDValues: no duplicate AVS, the AVS occurs in an opted state — or, since the F-18r repair, its amount
+    is zero —, the amount is not negative -/
+def validateAvsUsd (cfg : OpValCfg) (avss : List String) (as : List (String × Int)) : Bool :=
+  decide (as.map (·.1)).Nodup &&
+  as.all (fun a => (avss.contains a.1 || (cfg.zeroAvsUnopted && a.2 == 0)) && decide (0 ≤ a.2))
 
 /-- avsUSDValues[avsAddress] -/
 def avsValue (as : List (String × Int)) (avs : String) : Option Int := (as.find? (fun a => a.1 == avs)).map (·.2)
 
-/-- ValidateOperatorUSDValues, one entry: no negative field, operator registered, the AVS has a USD value, total ≤ the
-    AVS's value, self ≤ total, active ≤ total -/
-def validateUSDItem (ops : List String) (as : List (String × Int)) (u : OpUSD) : Bool :=
+/-- ValidateOperatorUSDValues, one entry: no negative field, operator registered, the AVS's USD value (since the F-18o
+    repair a missing one reads as zero; before: rejected) is not below the entry's active value (since the F-18p repair;
+    before: its total), self ≤ total, active ≤ total -/
+def validateUSDItem (cfg : OpValCfg) (ops : List String) (as : List (String × Int)) (u : OpUSD) : Bool :=
   decide (0 ≤ u.self) && decide (0 ≤ u.total) && decide (0 ≤ u.active) && ops.contains u.operator &&
   (match avsValue as u.avs with
-   | none => false
-   | some v => decide (u.total ≤ v)) &&
+   | none => cfg.missingAvsAsZero && decide ((if cfg.compareActive then u.active else u.total) ≤ 0)
+   | some v => decide ((if cfg.compareActive then u.active else u.total) ≤ v)) &&
   decide (u.self ≤ u.total) && decide (u.active ≤ u.total)
 
 /-- ValidateOperatorUSDValues -/
-def validateUSD (ops : List String) (as : List (String × Int)) (us : List OpUSD) : Bool :=
-  decide (us.map OpUSD.key).Nodup && us.all (validateUSDItem ops as)
+def validateUSD (cfg : OpValCfg) (ops : List String) (as : List (String × Int)) (us : List OpUSD) : Bool :=
+  decide (us.map OpUSD.key).Nodup && us.all (validateUSDItem cfg ops as)
 
 /-- x/operator/types/genesis.go: GenesisState.Validate (the five checks modelled here) -/
-def validateOperator (d : OperatorDoc) : Bool :=
+def validateOperatorWith (cfg : OpValCfg) (d : OperatorDoc) : Bool :=
   let ops := d.operators.map (·.1)
   validateOperators d.operators && validateKeyRecords ops d.records && validateOptStates ops d.optStates &&
-  validateAvsUsd (optedAVSs d.optStates) d.avsUsd && validateUSD ops d.avsUsd d.usd
+  validateAvsUsd cfg (optedAVSs d.optStates) d.avsUsd && validateUSD cfg ops d.avsUsd d.usd
 
-/-! ## the two writers of the USD values -/
+/-- the code as it is -/
+def validateOperator (d : OperatorDoc) : Bool := validateOperatorWith codeOpValCfg d
+/-- the code before the F-18o / F-18p / F-18r repairs -/
+def validatePreFix (d : OperatorDoc) : Bool := validateOperatorWith preFixOpValCfg d
+
+/-! ## the writers of the USD values -/
 
 /-- x/operator/keeper/opt.go OptIn (the part that touches these stores): the opted state and the zero USD entry -/
 def optIn (s : OperatorMod) (operator avs : String) (height : Nat) : OperatorMod :=
   { s with optStates := ssSet (joinKey operator avs) ⟨operator, avs, height, 18446744073709551615⟩ s.optStates,
            usd := ssSet (joinKey avs operator) ⟨avs, operator, 0, 0, 0⟩ s.usd }
+
+/-- x/operator/keeper/opt.go OptOut (the part that touches these stores): DeleteOperatorUSDValue, OptedOutHeight := height -/
+def optOut (s : OperatorMod) (operator avs : String) (height : Nat) : OperatorMod :=
+  { s with optStates := s.optStates.map (fun p => if p.1 = joinKey operator avs then (p.1, { p.2 with outH := height }) else p),
+           usd := s.usd.filter (fun p => p.1 != joinKey avs operator) }
 
 /-- x/operator/keeper/abci.go UpdateVotingPower for one AVS: `stake operator = (self, total)` as
     CalculateUSDValueForOperator returns them, `minSelf` the AVS's minimum self delegation -/
